@@ -779,10 +779,7 @@ impl<'a> Interp<'a> {
                 }
             }
             6 => {
-                // rename
-                if !has_q {
-                    return Ok(true);
-                }
+                // rename (in a questionless state the re-parse legitimately fails: then nothing may change)
                 let a = gen_rename_args(src, &self.model);
                 if !a.source.clean() || !a.target.clean() || !a.source.well_formed() || !a.target.well_formed() {
                     return Ok(true);
@@ -834,6 +831,10 @@ impl<'a> Interp<'a> {
                     Ok(r) => r,
                 };
                 match (r, expected) {
+                    (Err(_), Ok(_)) if !has_q => {
+                        failed = true;
+                        self.st.class("fail:rename-without-question");
+                    }
                     (Ok(()), Ok((m, _))) => {
                         self.model = m;
                         self.ci = true;
@@ -1067,7 +1068,7 @@ pub fn replay_c10(data: &[u8]) -> PResult {
 
 const ASSUMPTIONS: &[&str] = &[
     "QR gating: set_response(false)/set_flags with QR clear and inserts into answer/authority are generated only when the result has no answer/authority records with QR=0",
-    "questionless states (after deleting the question) are judged by the reference decoder with qdcount=0 allowed; rename, recompute and iterator uncompress (which re-parse) are not generated there",
+    "questionless states (after deleting the question) are judged by the reference decoder with qdcount=0 allowed; recompute and iterator uncompress (which re-parse) are not generated there; a rename may fail there (the re-parse needs a question) and must then change nothing",
     "the OPT pseudo-record is only deleted, never given a TTL/address/owner",
     "recompute() is called only when maybe_compressed is false or the bytes are pointer-free (documented use)",
     "on a deleted record's cursor only delete/set_raw_name/is_tombstone are called",
@@ -1230,7 +1231,7 @@ pub fn check_c10(ctx: &Ctx, known: &KnownFindings) -> Report {
     let mut rep = check_ops(Which::C10, ctx, known, 300_000, 4_000_000, 10);
     rep.require(&[
         "fail:second-question", "fail:set_raw_name-label-64", "fail:set_raw_name-pointer", "fail:set_raw_name-truncated", "fail:set_raw_name-name-256", "fail:set_raw_name-empty-slice",
-        "fail:set_raw_name-forbidden-char", "fail:op-on-tombstone", "fail:malformed-text", "fail:rename-overflow", "fail:rename-invalid-name", "fail:packet-too-large", "fail:packet-too-large-from-above-8192", "start:>8192", "op:insert-near-limit",
+        "fail:set_raw_name-forbidden-char", "fail:op-on-tombstone", "fail:malformed-text", "fail:rename-overflow", "fail:rename-invalid-name", "fail:rename-without-question", "fail:packet-too-large", "fail:packet-too-large-from-above-8192", "start:>8192", "op:insert-near-limit",
     ]);
     rep
 }
